@@ -337,6 +337,9 @@ func rejectWriteFails() {
 type slowAuth struct {
 	gate    chan struct{}
 	entered int
+	// badGate, when set, holds the verdict for every other pair back as well (a check
+	// against a remote directory is slow whatever its outcome)
+	badGate chan struct{}
 }
 
 func (a *slowAuth) Authenticate(user, token string) bool {
@@ -344,6 +347,9 @@ func (a *slowAuth) Authenticate(user, token string) bool {
 		a.entered++
 		<-a.gate
 		return true
+	}
+	if a.badGate != nil {
+		<-a.badGate
 	}
 	return false
 }
@@ -402,6 +408,71 @@ func slowAuthenticator() {
 	}
 	fx.Settle()
 	vrt.Observe("late=%v entered=%d ran=%d", late, sa.entered, w.Root.Total())
+}
+
+// twoSlowLogins: connections A (accepted pair) and B (refused pair) log in at the same
+// time, with the same message id (ids are per connection), and the authenticator is slow
+// for both; the verdicts arrive in either order. B reaches nothing (seed C06-20 kept the
+// pending logins in one table keyed by message id and applied A's verdict to B).
+func twoSlowLogins() {
+	sa := &slowAuth{gate: make(chan struct{}), badGate: make(chan struct{})}
+	w := fx.Start(sa)
+	a, b := w.RawPeer(), w.RawPeer()
+	a.StartDrain()
+	b.StartDrain()
+	goodFirst := vrt.ChooseFree(2, "the accepted verdict arrives first") == 1
+	bFirst := vrt.ChooseFree(2, "B's login is sent first") == 1
+	vrt.Explore()
+	ida, idbLogin := a.NextID(), b.NextID()
+	if ida != idbLogin {
+		vrt.Failf("harness/ids", "the two logins were meant to carry the same message id (%d, %d)", ida, idbLogin)
+	}
+	if bFirst {
+		b.Send(net.Call, 0, 0, 8, idbLogin, payload(pBad))
+		vrt.Quiesce()
+		a.Send(net.Call, 0, 0, 8, ida, payload(pGood))
+	} else {
+		a.Send(net.Call, 0, 0, 8, ida, payload(pGood))
+		vrt.Quiesce()
+		b.Send(net.Call, 0, 0, 8, idbLogin, payload(pBad))
+	}
+	vrt.Quiesce()
+	if goodFirst {
+		close(sa.gate)
+		vrt.Quiesce()
+		close(sa.badGate)
+	} else {
+		close(sa.badGate)
+		vrt.Quiesce()
+		close(sa.gate)
+	}
+	vrt.Quiesce()
+	idb := b.NextID()
+	b.Send(net.Call, 1, 1, 100, idb, fx.Int32(9))
+	vrt.Quiesce()
+	if w.Root.Total() > 0 {
+		vrt.Failf("service-reached-unauthenticated/two-slow-logins", "method bodies %v ran for connection B, which only ever presented a refused pair, while connection A's accepted login was in flight with the same message id (good verdict first: %v, B first: %v)", w.Root.Order, goodFirst, bFirst)
+	}
+	for _, r := range b.Replies(idb) {
+		if r.Hdr.Type == net.Reply {
+			vrt.Failf("reply-from-service-unauthenticated/two-slow-logins", "connection B got a success reply from the service")
+		}
+	}
+	if !b.EOF {
+		vrt.Failf("unauthenticated-connection-not-closed/two-slow-logins", "connection B is still open after calling a service without accepted credentials")
+	}
+	// A presented the accepted pair: once told so it is served
+	ida2 := a.NextID()
+	a.Send(net.Call, 1, 1, 100, ida2, fx.Int32(4))
+	vrt.Quiesce()
+	if rs := a.Replies(ida); len(rs) > 0 && rs[0].Hdr.Type == net.Reply {
+		vrt.Flag("slow-verdict-accepted")
+		if rs := a.Replies(ida2); len(rs) != 1 || rs[0].Hdr.Type != net.Reply {
+			vrt.Failf("authenticated-connection-refused/two-slow-logins", "connection A was told it is authenticated but cannot call the service")
+		}
+	}
+	fx.Settle()
+	vrt.Observe("goodFirst=%v bFirst=%v ran=%d", goodFirst, bFirst, w.Root.Total())
 }
 
 // afterLogin: connection A logs in with the accepted pair; then connection B
@@ -540,6 +611,8 @@ func init() {
 		Doc: "two accounts whose names and tokens contain separators; after one or both logged in on other connections, connection B presents a pair derived from the accepted ones (every re-split of user+sep+token over 13 separators, swapped halves, case variants, prefixes, extensions, the token of the other account) and calls a service: refused and closed"})
 	reg.Register(&reg.Scenario{Property: "C06", Name: "second-connection-after-a-login", Body: afterLogin, Quick: 0, Thorough: 1,
 		Doc: "connection A authenticates with the accepted pair; connection B then presents one of 13 other payloads (nothing, half of the pair, forged states, near misses with blanks) as Call / Post / Capability and calls a service: refused and closed"})
+	reg.Register(&reg.Scenario{Property: "C06", Name: "two-slow-logins-same-id", Body: twoSlowLogins, Quick: 1, Thorough: 2,
+		Doc: "an accepted and a refused login of two connections in flight at once with the same message id, a slow authenticator for both, verdicts in either order: the refused connection reaches nothing, is refused and closed", MustFlag: []string{"slow-verdict-accepted"}})
 	reg.Register(&reg.Scenario{Property: "C06", Name: "slow-authenticator", Body: slowAuthenticator, Quick: 1, Thorough: 2,
 		Doc: "the authenticator takes arbitrarily long for connection A's good pair; connection B presents a bad pair before or after A's verdict arrives, then calls a service: B is refused and closed", MustFlag: []string{"slow-verdict-accepted"}})
 	reg.Register(&reg.Scenario{Property: "C06", Name: "reject-answer-cannot-be-written", Body: rejectWriteFails, Quick: 1, Thorough: 2,
